@@ -151,6 +151,12 @@ class C13(Base):
             for v in ["D800", "DFFF", "d7ff", "E000", "FFFF", "0000"] if e == "u" else \
                      ["00D800", "110000", "10FFFF", "FFFFFF", "00dfff", "000041"]:
                 escs.append("\\" + e + v)
+        # an UNKNOWN escape whose character is multi-byte: one representative per UTF-8 lead byte (0xC2..0xF4) - a test on
+        # the first byte after the backslash must not take a lead byte for `u` / `U`
+        for lead_cp in list(range(0x80, 0x800, 0x40)) + list(range(0x800, 0x10000, 0x1000)) + [0x10000, 0x40000, 0x80000, 0x100000]:
+            if 0xD800 <= lead_cp <= 0xDFFF:
+                continue
+            escs.append("\\" + chr(lead_cp))
         for p in PREFIX:
             for e in escs:
                 for f in FOLLOW:
